@@ -195,6 +195,33 @@ static std::string handle(const std::vector<std::string>& a) {
     }
     return res;
   }
+  // JA / MA <L> <filterhex|-> <hex> : deserialize on an instrumented allocator; prints code, document,
+  // bytes requested, peak live bytes, number of allocator calls, live blocks after destruction
+  if ((a[0] == "JA" || a[0] == "MA") && a.size() == 4) {
+    bool json = a[0] == "JA";
+    int L = std::stoi(a[1]);
+    std::string input = unhex(a[3]);
+    JsonDocument fdoc;
+    bool filtered = a[2] != "-";
+    if (filtered) {
+      std::string ftxt = unhex(a[2]);
+      deserializeJson(fdoc, ftxt.c_str(), ftxt.size(), DeserializationOption::NestingLimit(50));
+    }
+    JsonVariantConst fv = fdoc.as<JsonVariantConst>();
+    auto NL = DeserializationOption::NestingLimit((uint8_t)L);
+    auto FL = DeserializationOption::Filter(fv);
+    SpyAllocator spy;
+    std::string r;
+    {
+      JsonDocument doc(&spy);
+      DeserializationError err = json ? (filtered ? deserializeJson(doc, input.data(), input.size(), FL, NL) : deserializeJson(doc, input.data(), input.size(), NL))
+                                      : (filtered ? deserializeMsgPack(doc, input.data(), input.size(), FL, NL) : deserializeMsgPack(doc, input.data(), input.size(), NL));
+      r = std::string(codeName(err)) + " " + dump(doc.as<JsonVariantConst>()) + " req=" + std::to_string(spy.requested) +
+          " peak=" + std::to_string(spy.peak) + " calls=" + std::to_string(spy.calls);
+    }
+    r += " leaked=" + std::to_string(spy.live.size()) + (spy.misuse ? " MISUSE" : "");
+    return r;
+  }
   // MR <hex> : deserializeMsgPack then serializeMsgPack and serializeJson of the result
   if (a[0] == "MR" && a.size() == 2) {
     std::string input = unhex(a[1]);
